@@ -379,7 +379,10 @@ def rejected_api_check(which):
     df, (lf,) = new_file(1)
     add_origin(lf, 'O')
     cls = [eflr_types.ZoneSet, eflr_types.ParameterSet, eflr_types.ChannelSet, eflr_types.ChannelSet,
+           eflr_types.ChannelSet, eflr_types.ChannelSet, eflr_types.ChannelSet, eflr_types.ChannelSet,
            eflr_types.ChannelSet, eflr_types.ChannelSet, eflr_types.ChannelSet][which]
+    import numpy as _np
+    arr = _np.arange(3, dtype=_np.float64)      # valid data accompanying an invalid argument (which >= 7)
     try:
         if which == 0:
             lf.add_zone('Z', domain='NOT-A-DOMAIN')
@@ -393,8 +396,16 @@ def rejected_api_check(which):
             lf.add_channel('Z', cast_dtype=0)              # invalid and falsy
         elif which == 5:
             lf.add_channel('Z', cast_dtype='')
-        else:
+        elif which == 6:
             lf.add_channel('Z', cast_dtype=False)
+        elif which == 7:
+            lf.add_channel('Z', data=arr, cast_dtype='not a dtype')
+        elif which == 8:
+            lf.add_channel('Z', data=arr, properties=['NOT-A-PROPERTY'])
+        elif which == 9:
+            lf.add_channel('Z', data=arr, axis='not an axis')
+        else:
+            lf.add_channel('Z', data=arr, long_name=5)
     except REJECT:
         pass
     else:
@@ -417,7 +428,7 @@ def rejected_api_check(which):
 
 def ob_rejected_api(which: int) -> int:
     """
-    pre: 0 <= which <= 6
+    pre: 0 <= which <= 10
     post: _ == 0
     """
     return rejected_api_check(which)
@@ -425,7 +436,7 @@ def ob_rejected_api(which: int) -> int:
 
 def reach_rejected_api(which: int) -> int:
     """
-    pre: 0 <= which <= 6
+    pre: 0 <= which <= 10
     post: _ != 0
     """
     return rejected_api_check(which)
